@@ -37,6 +37,10 @@ type ApprovalCfg struct {
 	// an uninvolved second peer is connected and its connection is removed at this position of the schedule (-1 = never):
 	// the outcomes of the first peer's writes do not depend on it
 	OtherDisc int `json:"otherdisc"`
+	// second epoch: after the schedule the connection is removed, the peer connects again (same SKI, its message counters
+	// start again, so its writes carry the counters of the first epoch), binds again and writes again; this is the
+	// configuration of that second round.  What the first epoch left behind must not show.
+	Round2 *ApprovalCfg `json:"round2,omitempty"`
 }
 type PStep struct {
 	K string `json:"k"`
@@ -62,6 +66,9 @@ type ApprovalLine struct {
 	OtherDisc    int                 `json:"otherdisc"`
 	SplitTimer   int                 `json:"splittimer"`
 	Late         map[string]bool     `json:"late"`
+	Epoch        int                 `json:"epoch"`
+	Data0        int                 `json:"data0"`            // the data before the writes of this epoch arrived
+	Origin       *ApprovalCfg        `json:"origin,omitempty"` // the complete two-epoch configuration (for the replay file)
 }
 
 func parseStep(name string) PStep {
@@ -98,13 +105,15 @@ func approvalReplay(args []string) {
 		must(json.Unmarshal(sc.Bytes(), &c))
 		// a schedule that deadlocks the stack must not hang the check: after 20 s the line is written as a hang and the
 		// process ends (nothing after it in this process can be trusted)
-		done := make(chan ApprovalLine, 1)
+		done := make(chan []ApprovalLine, 1)
 		go func() { done <- runApproval(topo, c) }()
 		select {
-		case line := <-done:
-			must(enc.Encode(line))
+		case lines := <-done:
+			for _, line := range lines {
+				must(enc.Encode(line))
+			}
 		case <-time.After(20 * time.Second):
-			line := ApprovalLine{Verdict: c.Verdict, Expires: c.Expires, Sched: c.Sched, PSched: []PStep{}, Unsafe: c.Unsafe, Blocked: -1, Disconnect: c.Disconnect,
+			line := ApprovalLine{Epoch: 1, Verdict: c.Verdict, Expires: c.Expires, Sched: c.Sched, PSched: []PStep{}, Unsafe: c.Unsafe, Blocked: -1, Disconnect: c.Disconnect,
 				SplitTimer: c.SplitTimer, SplitVerdict: c.SplitVerdict, OtherDisc: c.OtherDisc, Late: c.Late, Outcomes: map[string][]string{}, Presented: map[string][]int{}, Values: map[string]int{},
 				Panic: "hang: the schedule did not finish within 20 s (a call of the stack blocks forever)"}
 			for w, v := range c.Verdict {
@@ -122,10 +131,14 @@ func approvalReplay(args []string) {
 	fmt.Printf("{\"schedules\": %d}\n", n)
 }
 
-func runApproval(topo *Topo, c ApprovalCfg) ApprovalLine {
-	line := ApprovalLine{Verdict: c.Verdict, Expires: c.Expires, Sched: c.Sched, Unsafe: c.Unsafe, Blocked: -1, Realised: true, Disconnect: c.Disconnect, SplitTimer: c.SplitTimer, SplitVerdict: c.SplitVerdict, OtherDisc: c.OtherDisc, Late: c.Late,
+func newApprovalLine(c ApprovalCfg, epoch int) *ApprovalLine {
+	line := ApprovalLine{Epoch: epoch, Verdict: c.Verdict, Expires: c.Expires, Sched: c.Sched, Unsafe: c.Unsafe, Blocked: -1, Realised: true, Disconnect: c.Disconnect, SplitTimer: c.SplitTimer, SplitVerdict: c.SplitVerdict, OtherDisc: c.OtherDisc, Late: c.Late,
 		Outcomes: map[string][]string{}, Presented: map[string][]int{}, Values: map[string]int{}}
 	line.PSched = []PStep{} // the steps in the order in which they really ran (a held or blocked verdict ends later than scheduled)
+	return &line
+}
+
+func runApproval(topo *Topo, c ApprovalCfg) []ApprovalLine {
 	s := NewSystem(topo)
 	defer s.Close()
 	p := s.peers["p1"]
@@ -137,12 +150,10 @@ func runApproval(topo *Topo, c ApprovalCfg) ApprovalLine {
 		s.step(Action{"a": "discover", "p": "p2", "ents": []any{"1", "2"}, "ack": false})
 	}
 	S1 := s.lfeat["S1"]
-	var writes []string
-	for w := range c.Verdict {
-		writes = append(writes, w)
+	ncb := 0
+	for _, v := range c.Verdict {
+		ncb = len(v)
 	}
-	sort.Strings(writes)
-	ncb := len(c.Verdict[writes[0]])
 	var mu sync.Mutex
 	msgs := map[uint64]*api.Message{} // counter -> message presented
 	presented := map[uint64][]int{}   // counter -> invocations per callback
@@ -159,6 +170,43 @@ func runApproval(topo *Topo, c ApprovalCfg) ApprovalLine {
 			presented[ctr][cb]++
 		})
 	}
+	line1 := newApprovalLine(c, 1)
+	approvalRound(s, p, S1, c, line1, &mu, msgs, presented, ncb)
+	if c.Round2 == nil {
+		return []ApprovalLine{*line1}
+	}
+	line1.Origin = &c
+	// second epoch
+	c2 := *c.Round2
+	s.dev.RemoveRemoteDeviceConnection(p.ski)
+	p.w.drain()
+	p.ctr = 0
+	mu.Lock()
+	for k := range presented {
+		delete(presented, k)
+	}
+	for k := range msgs {
+		delete(msgs, k)
+	}
+	mu.Unlock()
+	s.step(Action{"a": "connect", "p": "p1"})
+	s.step(Action{"a": "discover", "p": "p1", "ents": []any{"1", "2"}, "ack": false})
+	s.step(Action{"a": "bind", "p": "p1", "c": "c11", "s": "S1", "ft": "LoadControl", "ack": false})
+	line2 := newApprovalLine(c2, 2)
+	line2.Origin = &c
+	approvalRound(s, p, S1, c2, line2, &mu, msgs, presented, ncb)
+	return []ApprovalLine{*line1, *line2}
+}
+
+// one epoch: the writes arrive, the schedule is forced, the outcomes are read at quiescence
+func approvalRound(s *System, p *Peer, S1 api.FeatureLocalInterface, c ApprovalCfg, line *ApprovalLine, mup *sync.Mutex, msgs map[uint64]*api.Message, presented map[uint64][]int, ncb int) {
+	mu := mup
+	var writes []string
+	for w := range c.Verdict {
+		writes = append(writes, w)
+	}
+	sort.Strings(writes)
+	line.Data0 = dataVal("", S1.DataCopy(fnMap["limit"]))
 	sched := NewSched()
 	defer sched.Close()
 	ctrOf := map[string]uint64{}
@@ -191,8 +239,8 @@ func runApproval(topo *Topo, c ApprovalCfg) ApprovalLine {
 		}
 		ctr := p.ctr + 1
 		ctrOf[w], wOf[ctr] = ctr, w
-		line.Values[w] = i + 1
-		s.exec(Action{"a": "write", "p": "p1", "c": "c11", "s": "S1", "fn": "limit", "v": float64(i + 1), "ack": true}, p, &TraceLine{})
+		line.Values[w] = i + 1 + 10*(line.Epoch-1)
+		s.exec(Action{"a": "write", "p": "p1", "c": "c11", "s": "S1", "fn": "limit", "v": float64(line.Values[w]), "ack": true}, p, &TraceLine{})
 	}
 	// every callback has been invoked for every write (they run in goroutines of the stack)
 	deadline := time.Now().Add(2 * time.Second)
@@ -256,19 +304,39 @@ func runApproval(topo *Topo, c ApprovalCfg) ApprovalLine {
 			}
 		}
 	}
+	// timer callbacks that were released and are not known to have ended (whether one has ended is read from the
+	// runtime's goroutine dump by goroutine id, never from the number of goroutines: callback goroutines of the stack
+	// come and go meanwhile)
+	var running []*sproc
+	settle := func(sp *sproc, d time.Duration) bool {
+		for {
+			if sp.parked != "" {
+				sp.parked = ""
+				sp.gate <- struct{}{}
+			}
+			at, ok := sched.WaitParkOrExit(sp, d)
+			if !ok {
+				return false
+			}
+			if at == "" {
+				sp.done = true
+				return true
+			}
+			sp.parked = at
+		}
+	}
 	finishTimer := func() {
-		if midTimer == nil {
-			return
+		if midTimer != nil {
+			running = append(running, midTimer)
+			midTimer = nil
 		}
-		before := runtime.NumGoroutine()
-		midTimer.parked = ""
-		midTimer.gate <- struct{}{}
-		midTimer.done = true
-		midTimer = nil
-		deadline := time.Now().Add(500 * time.Millisecond)
-		for runtime.NumGoroutine() >= before && time.Now().Before(deadline) {
-			time.Sleep(100 * time.Microsecond)
+		var still []*sproc
+		for _, sp := range running {
+			if !settle(sp, 3*time.Second) {
+				still = append(still, sp)
+			}
 		}
+		running = still
 	}
 	for i, name := range c.Sched {
 		if c.OtherDisc == i {
@@ -287,7 +355,6 @@ func runApproval(topo *Topo, c ApprovalCfg) ApprovalLine {
 				sched.WaitArrive(name, 2*time.Second) // the timeout elapses now, in real time
 			}
 			finishTimer()
-			before := runtime.NumGoroutine()
 			sp := sched.procs[name]
 			if sp != nil && sp.parked != "" {
 				line.PSched = append(line.PSched, parseStep(name))
@@ -300,27 +367,18 @@ func runApproval(topo *Topo, c ApprovalCfg) ApprovalLine {
 			}
 			sp.parked = ""
 			sp.gate <- struct{}{}
-			if c.SplitTimer > 0 {
-				// runs until it draws the counter of its error result (parks again) or ends without sending
-				deadline := time.Now().Add(500 * time.Millisecond)
-				for sp.parked == "" && runtime.NumGoroutine() >= before && time.Now().Before(deadline) {
-					select {
-					case at := <-sp.arrive:
-						sp.parked = at
-					default:
-						time.Sleep(100 * time.Microsecond)
-					}
-				}
-				if sp.parked != "" {
-					midTimer, midLeft = sp, c.SplitTimer
-					releaseHeld(name)
-					continue
-				}
+			// runs until it draws the counter of its error result (parks again, split timer only) or ends
+			at, ok := sched.WaitParkOrExit(sp, 3*time.Second)
+			if ok && at != "" {
+				sp.parked = at
+				midTimer, midLeft = sp, c.SplitTimer
+				releaseHeld(name)
+				continue
 			}
-			sp.done = true
-			deadline := time.Now().Add(500 * time.Millisecond)
-			for runtime.NumGoroutine() >= before && time.Now().Before(deadline) {
-				time.Sleep(100 * time.Microsecond)
+			if ok {
+				sp.done = true
+			} else {
+				running = append(running, sp) // blocked on a lock of the stack: finished when the holder has gone on
 			}
 			releaseHeld(name)
 			continue
@@ -366,12 +424,13 @@ func runApproval(topo *Topo, c ApprovalCfg) ApprovalLine {
 		p.w.drain()
 		disconnected = true
 	}
-	// release parked timers that the schedule did not run (not part of the model's behaviour: they were stopped)
+	// release parked timers that the schedule did not run (not part of the model's behaviour: they were stopped), and
+	// let every timer callback that has started come to its end
 	for _, w := range writes {
-		if sp := sched.procs["t:"+w]; sp != nil && sp.parked != "" {
-			sp.parked = ""
-			sp.gate <- struct{}{}
-			sp.done = true
+		if sp := sched.procs["t:"+w]; sp != nil && sp.started && !sp.done {
+			if !settle(sp, 3*time.Second) {
+				line.Panic = "hang: the timeout handler of " + w + " does not return (a call of the stack blocks forever)"
+			}
 		}
 	}
 	if !sched.Drain() {
@@ -417,5 +476,4 @@ func runApproval(topo *Topo, c ApprovalCfg) ApprovalLine {
 		}
 	}
 	line.Data = dataVal("", S1.DataCopy(fnMap["limit"]))
-	return line
 }
